@@ -221,8 +221,12 @@ SetupCall(c, cid, clean) ==
   /\ SetCl(c, [cl[c] EXCEPT !.pc = "setup"])
   /\ UNCHANGED <<link, up, down, dq, ackq, ackdue, tok, pubctx, sess, retained, cfg, closing, ghost>>
 
-SetupFail(c) ==
+SetupFail(c, err) ==
   /\ cl[c].pc = "setup"
+  \* Setup fails only when the backend fails (injected) or is closing: a takeover must complete - the previous holder of the
+  \* client id has to let go in time (a kill timeout means it did not react to being closed)
+  /\ G("C13,C14", "TakeoverCompletes", err # "kill timeout")
+  /\ G("C14", "SetupFailsOnlyForCause", err \in {"injected backend failure", "closing", "kill timeout"})
   /\ SetCl(c, [cl[c] EXCEPT !.pc = "dead", !.beerr = TRUE])
   /\ UNCHANGED <<link, up, down, dq, ackq, ackdue, tok, pubctx, sess, retained, cfg, closing, ghost>>
 
